@@ -115,7 +115,7 @@ def build_and_run(programs, nshards=16, rounds=7, extra_prelude="", timeout=3000
             (RT / "src" / "bin" / f"s{si}.rs").write_text("\n".join(parts))
             linemap[si] = starts
         t = time.time()
-        p = core.run("cargo build --offline --bins --message-format=short 2>&1", cwd=RT, timeout=timeout)
+        p = core.run("cargo build --offline --bins --keep-going --message-format=short 2>&1", cwd=RT, timeout=timeout)
         stats["build_s"] += time.time() - t
         (core.OUT / f"rt_round{rnd}.log").write_text(p.stdout[-400000:])
         errs = defaultdict(list)
